@@ -9,6 +9,7 @@ pub struct C03;
 
 pub fn run_case(h: &History, ctx: &mut Ctx) -> CaseResult {
     let mut st = init(h)?;
+    ctx.class_if(h.shift > 0, "data_far_from_origin");
     let mut cached = false;
     let mut judged_prunings = 0;
     let mut removed_total = 0usize;
@@ -22,7 +23,7 @@ pub fn run_case(h: &History, ctx: &mut Ctx) -> CaseResult {
         // unpruned twin for compose<true>
         let twin = match op {
             HOp::Compose { prune: true, g, out } => {
-                let mut s2 = HState { t: st.t.clone(), r: st.r.clone(), in_dim: st.in_dim, out_dim: st.out_dim, anchors: st.anchors.clone(), tracking: st.tracking };
+                let mut s2 = HState { t: st.t.clone(), r: st.r.clone(), in_dim: st.in_dim, out_dim: st.out_dim, anchors: st.anchors.clone(), shift: st.shift, tracking: st.tracking };
                 let info2 = step(&mut s2, &HOp::Compose { prune: false, g: g.clone(), out: *out }).map_err(|f| Failure::with(format!("step {i} (unpruned twin): {}", f.msg), f.detail))?;
                 if info2.skipped {
                     None
@@ -50,6 +51,7 @@ pub fn run_case(h: &History, ctx: &mut Ctx) -> CaseResult {
             ctx.count("inputs", out.inputs as u64);
             ctx.count("inputs_on_boundary", out.on_boundary as u64);
             ctx.count("thin_exempt", out.thin_exempt as u64);
+            ctx.count("inputs_not_judged_rounding", out.rounding_skipped as u64);
             ctx.class_if(cached, "cached_states");
             ctx.class_if(was_partial || info.partial_operand, "partial");
             let mut removed = 0;
@@ -86,7 +88,7 @@ impl Property for C03 {
         "C03"
     }
     fn rule(&self) -> String {
-        "binary trees (generated total/partial trees with predicates that contradict or duplicate an ancestor, from_poly preconditions, schema trees) put through short histories (so that feasibility caches are fresh or come from earlier compose/eliminate/apply_func/forwarding steps); after every pruning operation (infeasible_elimination, compose<true>, tree +- tree) the tree is compared with the unpruned reference function on ALL full-dimensional cells by exact LP and at exact boundary inputs (thin rule: inputs whose path crosses a region without a ball of radius 1e-6 are exempt and counted); compose<true> is additionally compared with compose<false> of the same operands; after infeasible_elimination every vanished terminal and every skipped decision's lost branch must have a region without such a ball, and a skipped decision must not have had a reachable missing branch. Non-trivial = some pruning removed >= 1 node and left >= 2 terminals; distinct = distinct serialised histories".into()
+        "binary trees (generated total/partial trees with predicates that contradict or duplicate an ancestor, from_poly preconditions, schema trees) put through short histories (so that feasibility caches are fresh or come from earlier compose/eliminate/apply_func/forwarding steps); after every pruning operation (infeasible_elimination, compose<true>, tree +- tree) the tree is compared with the unpruned reference function on ALL full-dimensional cells by exact LP and at exact boundary inputs (thin rule: inputs whose path crosses a region without a ball of radius 1e-6 are exempt and counted); compose<true> is additionally compared with compose<false> of the same operands; after infeasible_elimination every vanished terminal and every skipped decision's lost branch must have a region without such a ball, and a skipped decision must not have had a reachable missing branch. Non-trivial = some pruning removed >= 1 node and left >= 2 terminals; distinct = distinct serialised histories; 1 history in 25 has its input-space data translated by 2^20..2^30 (data far from the origin)".into()
     }
     fn assumptions(&self) -> Vec<String> {
         vec![
